@@ -139,9 +139,9 @@ CLAIMS = {
         'model vs the compiled node tree of the real schema (key, optional, InheritedFrom), verdict code, keys of Example() and of the '
         'OpenAPI property listing, on root + 2 types exhaustively, all additionalProperties pairs, chains/cycles up to 6, diamonds and '
         'random graphs with nested objects; an independent python merge oracle.',
-   note='Trusted: Coq kernel; model tied by correspondence; text printer and python oracle; harness reading ischema nodes. Partial: '
-        'termination of the compiler model is not proved (fuel 200 in the correspondence; out-of-fuel would be reported). allOf inside '
-        'arrays is not generated. No axioms.',
+   note='Trusted: Coq kernel; model tied by correspondence; text printer and python oracle; harness reading ischema nodes. Termination of the compiler '
+        'model is proved (C07_terminates; measure: defined names not on the stack, then node structure), so it decides inheritance '
+        '(C07_decides). allOf inside arrays is not generated. No axioms.',
    technique='Coq proofs (soundness/completeness against a declarative spec, mutual induction, fuel monotonicity) + correspondence + oracle',
    ref='section 9, C07'),
  'C05': dict(
